@@ -1,10 +1,12 @@
 package drive
 
 import (
+	"bytes"
 	"encoding/json"
 	"fmt"
 	"io"
 	"time"
+	"verif/internal/ref"
 
 	"github.com/ulikunitz/xz"
 	"github.com/ulikunitz/xz/lzma"
@@ -166,7 +168,16 @@ func configTable(c *hx.Ctx, kind string) {
 		switch {
 		case p != nil:
 			c.Violation(sig, fmt.Sprintf("Verify panicked on %+v: %v", row.Cfg, p), replay)
-		case (err == nil) != row.Ok:
+		case err == nil && !row.Ok:
+			// The table calls the record invalid, the library accepts it. The properties only speak
+			// about "configurations the library accepts": a lenient library (one that repairs the
+			// value) is fine as long as what it then does is right, so the accepted record is tried
+			// out instead of being reported: writers must produce a stream the reference decodes to
+			// the input, readers must decode a good stream.
+			if why := probeAcceptedConfig(kind, row.Cfg.Props, props, dict, row.Cfg.Buf, row.Cfg.Block, row.Cfg.Check, row.Cfg.None, row.Cfg.Matcher, row.Cfg.Sih, row.Cfg.Size); why != "" {
+				c.Violation(sig, fmt.Sprintf("%s configuration %+v is accepted by Verify (the decision table calls it invalid) and does not work: %s", kind, row.Cfg, why), replay)
+			}
+		case err != nil && row.Ok:
 			c.Violation(sig, fmt.Sprintf("%s configuration %+v: Verify returned %v, the decision table says ok=%v", kind, row.Cfg, err, row.Ok), replay)
 		case err == nil:
 			// Zero fields must have been replaced by values that are themselves valid; explicitly set
@@ -174,8 +185,9 @@ func configTable(c *hx.Ctx, kind string) {
 			// the documented ones (check CRC64; the table's values for the others are what the code
 			// does today and are not asserted).
 			explicitDict := row.Cfg.Dict != "0"
-			badDict := gotDict < 4096 || (explicitDict && gotDict != dictToken(row.Cfg.Dict) && kind != "reader") || (explicitDict && gotDict < dictToken(row.Cfg.Dict))
-			badBuf := kind != "reader" && (gotBuf < 273 || (row.Cfg.Buf != 0 && gotBuf != row.Cfg.Buf))
+			// (a library may round a capacity or a buffer size up: more room never hurts a property)
+			badDict := gotDict < 4096 || (explicitDict && gotDict < dictToken(row.Cfg.Dict))
+			badBuf := kind != "reader" && (gotBuf < 273 || (row.Cfg.Buf != 0 && gotBuf < row.Cfg.Buf))
 			badProps := kind != "reader" && (gotProps == nil || gotProps.LC < 0 || gotProps.LC > 8 || gotProps.LP < 0 || gotProps.LP > 4 || gotProps.PB < 0 || gotProps.PB > 4 ||
 				(props != nil && (gotProps.LC != props.LC || gotProps.LP != props.LP || gotProps.PB != props.PB)))
 			badCheck := kind == "xz" && gotCheck != row.Check
@@ -185,4 +197,75 @@ func configTable(c *hx.Ctx, kind string) {
 			}
 		}
 	}
+}
+
+// probeAcceptedConfig uses a configuration record that Verify accepted although the decision table
+// calls it invalid. It returns "" if the object built from it behaves (round trip judged by the
+// reference decoder for writers; a known-good stream decoded for readers), else what went wrong.
+func probeAcceptedConfig(kind string, rawProps []int, props *lzma.Properties, dict, buf int, block int64, check int, none bool, matcher int, sih bool, size int64) (why string) {
+	if dict > 1<<26 {
+		return "" // too large to try out; such a record would have to be huge to be wrong silently
+	}
+	data := MakeData("text", 20000, int64(dict)+int64(buf))
+	if p := safely(func() {
+		var sink bytes.Buffer
+		var w io.WriteCloser
+		var err error
+		switch kind {
+		case "xz":
+			w, err = xz.WriterConfig{Properties: props, DictCap: dict, BufSize: buf, BlockSize: block, CheckSum: byte(check), NoCheckSum: none, Matcher: lzma.MatchAlgorithm(matcher)}.NewWriter(&sink)
+		case "lzma2":
+			w, err = lzma.Writer2Config{Properties: props, DictCap: dict, BufSize: buf, Matcher: lzma.MatchAlgorithm(matcher)}.NewWriter2(&sink)
+		case "lzma":
+			if sih {
+				data = data[:0]
+				if size > 0 {
+					data = MakeData("text", int(size), 3)
+				}
+			}
+			w, err = lzma.WriterConfig{Properties: props, DictCap: dict, BufSize: buf, Matcher: lzma.MatchAlgorithm(matcher), SizeInHeader: sih, Size: size}.NewWriter(&sink)
+		case "reader":
+			good := libXZ(XZCfg{LC: 3, PB: 2, DictCap: 65536, BufSize: 4096, Check: 4}, data)
+			r, e := xz.ReaderConfig{DictCap: dict}.NewReader(bytes.NewReader(good))
+			if e != nil {
+				why = fmt.Sprintf("Verify accepts it but NewReader fails: %v", e)
+				return
+			}
+			out, e := io.ReadAll(r)
+			if e != nil || !bytes.Equal(out, data) {
+				why = fmt.Sprintf("a valid stream is not decoded with it: %v", e)
+			}
+			return
+		}
+		if err != nil {
+			why = fmt.Sprintf("Verify accepts it but the constructor fails: %v", err)
+			return
+		}
+		if _, err = w.Write(data); err == nil {
+			err = w.Close()
+		}
+		if err != nil {
+			why = fmt.Sprintf("writing 20 kB with it fails: %v", err)
+			return
+		}
+		var got []byte
+		var derr error
+		switch kind {
+		case "xz":
+			r := ref.DecodeXZ(sink.Bytes(), ref.XZOpts{})
+			got, derr = r.Content, r.Err
+		case "lzma2":
+			r := ref.DecodeLZMA2(sink.Bytes(), ref.L2Opts{})
+			got, derr = r.Out, r.Err
+		case "lzma":
+			r := ref.DecodeAlone(sink.Bytes(), false)
+			got, derr = r.Out, r.Err
+		}
+		if derr != nil || !bytes.Equal(got, data) {
+			why = fmt.Sprintf("the stream written with it is not decoded to the input by the reference decoder: %v", derr)
+		}
+	}); p != nil {
+		return fmt.Sprintf("panic: %v", p)
+	}
+	return why
 }
